@@ -459,6 +459,11 @@ caf_read_header (SF_PRIVATE *psf)
 				break ;
 
 			case data_MARKER :
+				if (chunk_size >= 0 && chunk_size < 4)
+				{	/* No room for the 'edit' field : the data length below would be negative. */
+					psf_log_printf (psf, "%M : %D (should be >= 4)\n", marker, chunk_size) ;
+					return SFE_MALFORMED_FILE ;
+					} ;
 				psf_binheader_readf (psf, "E4", &k) ;
 				if (chunk_size == -1)
 				{	psf_log_printf (psf, "%M : -1\n") ;
